@@ -36,7 +36,15 @@ def OpOk (cur : Roi) : Op → Prop
        | .poly g => closeFull (c * g.c + s * g.s) (s * g.c - c * g.s) = false ∨
            (c * g.c + s * g.s = 1 ∧ s * g.c - c * g.s = 0)
        | _ => True)
+  | .define new => sameKind cur new ∧ new.defined = true
+  | .removePoint _ => (match cur with | .poly g => 2 ≤ g.vs.length | _ => True)
+  | .forkAdd _ => (match cur with | .poly _ => False | _ => True)
   | _ => True
+
+/-- Vertex list of a polygon (empty for the other classes). -/
+def polyVerts : Roi → List Pt
+  | .poly g => g.vs
+  | _ => []
 
 structure Inv (st : SpecState) (cur : Roi) : Prop where
   kind : sameKind st.roi cur
@@ -44,6 +52,7 @@ structure Inv (st : SpecState) (cur : Roi) : Prop where
   ori : (st.c, st.s) = Spec.orient cur
   unit : st.c * st.c + st.s * st.s = 1
   defd : cur.defined = true
+  verts : polyVerts cur = (polyVerts st.roi).map (pushforward st.motions)
   link : ∀ q, OffB st.roi (Spec.pullback st.motions q) →
     (OffB cur q ∧ Spec.contains cur q = Spec.contains st.roi (Spec.pullback st.motions q))
 
@@ -61,6 +70,32 @@ theorem undo_turn (ctr : Pt) (c s : Rat) (q : Pt) :
 theorem turnBack_id (ctr q : Pt) : turnBack ctr 1 0 q = q := by
   simp only [turnBack, unrot]
   ext <;> simp
+
+theorem pushforward_cons (m : Motion) (ms : List Motion) (q : Pt) :
+    pushforward (m :: ms) q = m.apply (pushforward ms q) := rfl
+
+theorem map_pushforward_nil (l : List Pt) : l.map (pushforward []) = l := by
+  have : pushforward [] = id := by funext q; rfl
+  rw [this, List.map_id]
+
+theorem apply_shift (d q : Pt) : (Motion.apply ⟨(0, 0), 1, 0, d⟩ q) = shiftPt d q := by
+  simp only [Motion.apply, rotAbout, rot, shiftPt]
+  ext <;> simp
+
+theorem apply_turn (ctr : Pt) (c s : Rat) (q : Pt) :
+    (Motion.apply ⟨ctr, c, s, (0, 0)⟩ q) = rotAbout ctr c s q := by
+  simp only [Motion.apply, add_zero]
+
+theorem rotAbout_id (ctr q : Pt) : rotAbout ctr 1 0 q = q := by
+  simp only [rotAbout, rot]
+  ext <;> simp
+
+theorem polyVerts_of_kind {a b : Roi} (h : sameKind a b) (hb : ∀ g, b ≠ .poly g) :
+    polyVerts a = [] ∧ polyVerts b = [] := by
+  cases a <;> cases b <;> simp_all [sameKind, polyVerts]
+
+theorem theta_eq_orient (r : Roi) : r.theta = Spec.orient r := by
+  cases r <;> rfl
 
 /-! ### geometric definition under `move_to` -/
 
@@ -165,7 +200,7 @@ theorem inv_init (roi : Roi) (hdef : roi.defined = true)
     (hu : (Spec.orient roi).1 * (Spec.orient roi).1 + (Spec.orient roi).2 * (Spec.orient roi).2 = 1) :
     Inv (Spec.init roi) roi :=
   { kind := sameKind_refl roi, ctr := rfl, ori := rfl, unit := hu, defd := hdef,
-    link := fun _ h => ⟨h, rfl⟩ }
+    verts := (map_pushforward_nil _).symm, link := fun _ h => ⟨h, rfl⟩ }
 
 theorem moveTo_kind (roi : Roi) (t : Pt) : sameKind roi (roi.moveTo t) := by
   cases roi <;> simp [sameKind, Roi.moveTo]
@@ -230,7 +265,25 @@ theorem inv_move (st : SpecState) (cur : Roi) (t : Pt) (h : Inv st cur) :
   have hm := step_move_motions st cur t h.kind h.ctr
   have hc := step_move_ctr st cur t h.kind h.defd
   obtain ⟨r1, r2, r3⟩ := step_move_rest st t
-  refine { kind := ?_, ctr := hc, ori := ?_, unit := ?_, defd := moveTo_defined cur t h.defd, link := ?_ }
+  have hverts : polyVerts (Impl.applyOp cur (.move t)) =
+      (polyVerts (Spec.step st (.move t)).roi).map (pushforward (Spec.step st (.move t)).motions) := by
+    rw [r1, hm]
+    show polyVerts (cur.moveTo t) = _
+    have hv := h.verts
+    have hk := h.kind
+    cases cur with
+    | poly g =>
+      rw [poly_moveTo_eq]
+      simp only [polyVerts] at hv ⊢
+      rw [hv, List.map_map]
+      apply List.map_congr_left
+      intro v _
+      simp only [Function.comp, pushforward_cons, apply_shift, Roi.moveDelta, Roi.center]
+      rw [← hv]
+    | _ =>
+      obtain ⟨e1, _⟩ := polyVerts_of_kind hk (by intro g; simp)
+      rw [e1]; rfl
+  refine { kind := ?_, ctr := hc, ori := ?_, unit := ?_, defd := moveTo_defined cur t h.defd, verts := hverts, link := ?_ }
   · rw [r1]; exact sameKind_trans h.kind (moveTo_kind cur t)
   · show ((Spec.step st (.move t)).c, (Spec.step st (.move t)).s) = Spec.orient (cur.moveTo t)
     rw [r2, r3, moveTo_orient]; exact h.ori
@@ -261,7 +314,10 @@ theorem inv_rotate (st : SpecState) (cur : Roi) (c s : Rat) (h : Inv st cur) (ho
     simp only [Spec.orient, Prod.mk.injEq] at hori
     simp only [Roi.center] at hctr
     have hun : r.c * r.c + r.s * r.s = 1 := by rw [← hori.1, ← hori.2]; exact h.unit
-    refine { kind := ?_, ctr := ?_, ori := ?_, unit := ?_, defd := h.defd, link := ?_ }
+    have hverts : polyVerts (Impl.applyOp (.rect r) (.rotate c s)) =
+        (polyVerts (Spec.step st (.rotate c s)).roi).map (pushforward (Spec.step st (.rotate c s)).motions) := by
+      simp [Spec.step, Spec.canRotate, hs, Impl.applyOp, Roi.rotateTo, polyVerts]
+    refine { kind := ?_, ctr := ?_, ori := ?_, unit := ?_, defd := h.defd, verts := hverts, link := ?_ }
     · simp [Spec.step, Spec.canRotate, hs, Impl.applyOp, Roi.rotateTo, sameKind]
     · simp [Spec.step, Spec.canRotate, hs, Impl.applyOp, Roi.rotateTo, Roi.center, hctr]; rfl
     · simp [Spec.step, Spec.canRotate, hs, Impl.applyOp, Roi.rotateTo, Spec.orient]
@@ -280,7 +336,10 @@ theorem inv_rotate (st : SpecState) (cur : Roi) (c s : Rat) (h : Inv st cur) (ho
     simp only [Spec.orient, Prod.mk.injEq] at hori
     simp only [Roi.center] at hctr
     have hun : e.c * e.c + e.s * e.s = 1 := by rw [← hori.1, ← hori.2]; exact h.unit
-    refine { kind := ?_, ctr := ?_, ori := ?_, unit := ?_, defd := h.defd, link := ?_ }
+    have hverts : polyVerts (Impl.applyOp (.ellipse e) (.rotate c s)) =
+        (polyVerts (Spec.step st (.rotate c s)).roi).map (pushforward (Spec.step st (.rotate c s)).motions) := by
+      simp [Spec.step, Spec.canRotate, hs, Impl.applyOp, Roi.rotateTo, polyVerts]
+    refine { kind := ?_, ctr := ?_, ori := ?_, unit := ?_, defd := h.defd, verts := hverts, link := ?_ }
     · simp [Spec.step, Spec.canRotate, hs, Impl.applyOp, Roi.rotateTo, sameKind]
     · simp [Spec.step, Spec.canRotate, hs, Impl.applyOp, Roi.rotateTo, Roi.center, hctr]
     · simp [Spec.step, Spec.canRotate, hs, Impl.applyOp, Roi.rotateTo, Spec.orient]
@@ -304,7 +363,25 @@ theorem inv_rotate (st : SpecState) (cur : Roi) (c s : Rat) (h : Inv st cur) (ho
       intro he; have := h.defd; simp [Roi.defined, he] at this
     have hcen : ((Roi.poly g).rotateTo c s).center = (Roi.poly g).center :=
       center_rotateTo' (.poly g) c s hu (by simpa [Spec.orient] using hun) h.defd
-    refine { kind := ?_, ctr := ?_, ori := ?_, unit := ?_, defd := ?_, link := ?_ }
+    have hverts : polyVerts (Impl.applyOp (.poly g) (.rotate c s)) =
+        (polyVerts (Spec.step st (.rotate c s)).roi).map (pushforward (Spec.step st (.rotate c s)).motions) := by
+      have hv := h.verts
+      simp only [hs, polyVerts] at hv
+      simp only [Spec.step, Spec.canRotate, hs, if_true, Impl.applyOp, Roi.rotateTo, polyVerts]
+      rcases hpoly with hnot | ⟨h1, h0⟩
+      · simp only [hnot, Bool.false_eq_true, if_false]
+        rw [hv, List.map_map]
+        apply List.map_congr_left
+        intro v _
+        simp only [Function.comp, pushforward_cons, apply_turn, hctr, hori.1, hori.2]
+        rw [← hv]
+      · rw [h1, h0]
+        simp only [closeFull_id, if_true]
+        rw [hv]
+        apply List.map_congr_left
+        intro v _
+        simp only [pushforward_cons, apply_turn, hori.1, hori.2, h1, h0, rotAbout_id]
+    refine { kind := ?_, ctr := ?_, ori := ?_, unit := ?_, defd := ?_, verts := hverts, link := ?_ }
     · simp only [Spec.step, Spec.canRotate, hs, if_true, Impl.applyOp, Roi.rotateTo]
       split <;> simp [sameKind]
     · simp only [Spec.step, Spec.canRotate, hs, if_true, Impl.applyOp]
@@ -363,7 +440,7 @@ theorem inv_roundtrip (st : SpecState) (cur : Roi) (h : Inv st cur) :
     cases hs : st.roi <;> simp [hs, sameKind] at hkind
     have e : Spec.step st .roundtrip = { st with c := 1, s := 0 } := by simp [Spec.step, hs]
     rw [e]
-    refine { kind := ?_, ctr := h.ctr, ori := rfl, unit := by norm_num, defd := h.defd, link := h.link }
+    refine { kind := ?_, ctr := h.ctr, ori := rfl, unit := by norm_num, defd := h.defd, verts := h.verts, link := h.link }
     simp [hs, sameKind, Roi.restored]
   | rect r =>
     cases hs : st.roi <;> simp [hs, sameKind] at hkind
@@ -390,6 +467,96 @@ theorem inv_roundtrip (st : SpecState) (cur : Roi) (h : Inv st cur) :
     have e : Spec.step st .roundtrip = st := by simp [Spec.step, hs]
     rw [e]; exact h
 
+/-! ### redefinitions -/
+
+theorem redefine_eq (st : SpecState) (cur new : Roi) (h : Inv st cur) (hk : sameKind cur new) :
+    redefineWith st.roi st.c st.s (1, 0) new = some (cur.redefine new) := by
+  have hkind := h.kind
+  have hori := h.ori
+  have hdefd := h.defd
+  cases hs : st.roi <;> cases cur <;> cases new <;>
+    simp_all [sameKind, redefineWith, Roi.redefine, Roi.theta, Spec.orient, Roi.defined]
+
+theorem redefine_defined (cur new : Roi) (hk : sameKind cur new) (hd : new.defined = true) :
+    (cur.redefine new).defined = true := by
+  cases cur <;> cases new <;> simp_all [sameKind, redefineWith, Roi.redefine, Roi.defined]
+
+theorem redefine_orient (cur new : Roi) (hk : sameKind cur new) :
+    Spec.orient (cur.redefine new) = Spec.orient cur ∨ Spec.orient (cur.redefine new) = (1, 0) := by
+  cases cur <;> cases new <;> simp_all [sameKind, redefineWith, Roi.redefine, Roi.theta, Spec.orient]
+
+theorem inv_define (st : SpecState) (cur new : Roi) (h : Inv st cur) (hok : OpOk cur (.define new)) :
+    Inv (Spec.step st (.define new)) (Impl.applyOp cur (.define new)) := by
+  obtain ⟨hk, hd⟩ := hok
+  have e := redefine_eq st cur new h hk
+  have e2 : Spec.step st (.define new) = Spec.init (cur.redefine new) := by
+    simp only [Spec.step, e, Spec.init]
+  rw [e2]
+  show Inv _ (cur.redefine new)
+  have hun : (Spec.orient cur).1 * (Spec.orient cur).1 + (Spec.orient cur).2 * (Spec.orient cur).2 = 1 := by
+    rw [← h.ori]; exact h.unit
+  refine inv_init _ (redefine_defined cur new hk hd) ?_
+  rcases redefine_orient cur new hk with ho | ho
+  · rw [ho]; exact hun
+  · rw [ho]; norm_num
+
+theorem inv_edit (st : SpecState) (cur : Roi) (f : List Pt → List Pt) (h : Inv st cur)
+    (hne : ∀ g, cur = .poly g → f g.vs ≠ []) : Inv (Spec.step.edit st f) (cur.editVs f) := by
+  have hkind := h.kind
+  cases cur with
+  | poly g =>
+    cases hs : st.roi <;> simp [hs, sameKind] at hkind
+    rename_i g0
+    have hv := h.verts
+    simp only [hs, polyVerts] at hv
+    have hori := h.ori
+    have e : Spec.step.edit st f =
+        ⟨.poly { vs := f g.vs, c := st.c, s := st.s }, [], polyCenter (f g.vs), st.c, st.s⟩ := by
+      simp only [Spec.step.edit, hs, hv]
+    rw [e]
+    refine { kind := ?_, ctr := rfl, ori := hori, unit := h.unit, defd := ?_, verts := ?_, link := fun _ hq => ⟨hq, rfl⟩ }
+    · simp [sameKind, Roi.editVs]
+    · have := hne g rfl
+      simp only [Roi.editVs, Roi.defined]
+      cases hf : f g.vs with
+      | nil => exact absurd hf this
+      | cons a l => rfl
+    · simp only [Roi.editVs, polyVerts]
+      exact (map_pushforward_nil _).symm
+  | rect r =>
+    cases hs : st.roi <;> simp [hs, sameKind] at hkind
+    have e : Spec.step.edit st f = st := by simp [Spec.step.edit, hs]
+    rw [e]; exact h
+  | circle r =>
+    cases hs : st.roi <;> simp [hs, sameKind] at hkind
+    have e : Spec.step.edit st f = st := by simp [Spec.step.edit, hs]
+    rw [e]; exact h
+  | ellipse r =>
+    cases hs : st.roi <;> simp [hs, sameKind] at hkind
+    have e : Spec.step.edit st f = st := by simp [Spec.step.edit, hs]
+    rw [e]; exact h
+  | annulus r =>
+    cases hs : st.roi <;> simp [hs, sameKind] at hkind
+    have e : Spec.step.edit st f = st := by simp [Spec.step.edit, hs]
+    rw [e]; exact h
+  | range r =>
+    cases hs : st.roi <;> simp [hs, sameKind] at hkind
+    have e : Spec.step.edit st f = st := by simp [Spec.step.edit, hs]
+    rw [e]; exact h
+  | undefined =>
+    cases hs : st.roi <;> simp [hs, sameKind] at hkind
+    have e : Spec.step.edit st f = st := by simp [Spec.step.edit, hs]
+    rw [e]; exact h
+
+theorem poly_vs_ne (g : Poly) (h : (Roi.poly g).defined = true) : g.vs ≠ [] := by
+  intro he; simp [Roi.defined, he] at h
+
+theorem editRemove_ne (vs : List Pt) (p : Pt) (h : 2 ≤ vs.length) : editRemove vs p ≠ [] := by
+  intro he
+  have hl : (editRemove vs p).length = 0 := by rw [he]; rfl
+  simp only [editRemove, List.length_eraseIdx] at hl
+  split at hl <;> omega
+
 theorem inv_step (st : SpecState) (cur : Roi) (op : Op) (h : Inv st cur) (hok : OpOk cur op) :
     Inv (Spec.step st op) (Impl.applyOp cur op) := by
   cases op with
@@ -397,6 +564,27 @@ theorem inv_step (st : SpecState) (cur : Roi) (op : Op) (h : Inv st cur) (hok : 
   | rotate c s => exact inv_rotate st cur c s h hok
   | copy => exact h
   | roundtrip => exact inv_roundtrip st cur h
+  | define new => exact inv_define st cur new h hok
+  | addPoint p =>
+    refine inv_edit st cur (editAdd · p) h ?_
+    intro g _; simp [editAdd]
+  | replaceLast p =>
+    refine inv_edit st cur (editReplaceLast · p) h ?_
+    intro g hg
+    have hne := poly_vs_ne g (hg ▸ h.defd)
+    simp only [editReplaceLast]
+    split
+    · exact hne
+    · simp
+  | removePoint p =>
+    refine inv_edit st cur (editRemove · p) h ?_
+    intro g hg
+    subst hg
+    exact editRemove_ne g.vs p hok
+  | forkAdd p =>
+    cases cur with
+    | poly g => exact hok.elim
+    | _ => exact h
 
 /-- Every operation of the list is within the theorem (checked against the region it is applied to). -/
 def OpsOk : Roi → List Op → Prop
@@ -433,26 +621,56 @@ contains `q` pulled back through the specified rigid motions; the reported centr
 angle are the specified ones. -/
 theorem ops_spec (roi : Roi) (ops : List Op) (q : Pt) (hdef : roi.defined = true)
     (hu : (Spec.orient roi).1 * (Spec.orient roi).1 + (Spec.orient roi).2 * (Spec.orient roi).2 = 1)
-    (hok : OpsOk roi ops) (hoff : OffB roi (Spec.pullback (Spec.run roi ops).motions q)) :
+    (hok : OpsOk roi ops)
+    (hoff : OffB (Spec.run roi ops).roi (Spec.pullback (Spec.run roi ops).motions q)) :
     Spec.contains (Impl.applyOps roi ops) q = Spec.containsAfter roi ops q ∧
     (Impl.applyOps roi ops).center = (Spec.run roi ops).ctr ∧
     Spec.orient (Impl.applyOps roi ops) = ((Spec.run roi ops).c, (Spec.run roi ops).s) := by
   have hinv := inv_fold ops (Spec.init roi) roi (inv_init roi hdef hu) hok
-  have hroi : (Spec.run roi ops).roi = roi := by
-    have : ∀ (ops : List Op) (st : SpecState), (ops.foldl Spec.step st).roi = st.roi := by
-      intro ops
-      induction ops with
-      | nil => intro st; rfl
-      | cons op rest ih =>
-        intro st
-        rw [List.foldl_cons, ih]
-        cases op <;> simp only [Spec.step]
-        · split <;> rfl
-        · split <;> rfl
-    exact this ops (Spec.init roi)
   change Inv (Spec.run roi ops) (Impl.applyOps roi ops) at hinv
-  obtain ⟨_, e⟩ := hinv.link q (by rw [hroi]; exact hoff)
-  rw [hroi] at e
+  obtain ⟨_, e⟩ := hinv.link q hoff
   exact ⟨e, hinv.ctr.symm, hinv.ori.symm⟩
+
+/-- Rigid transforms and copies (the round-2 op language): nothing is redefined. -/
+def Op.isTransform : Op → Bool
+  | .move _ | .rotate _ _ | .copy | .roundtrip => true
+  | _ => false
+
+/-- Without redefinitions the specification keeps the *original* region as its base. -/
+theorem run_roi_of_transforms (roi : Roi) (ops : List Op) (h : ∀ op ∈ ops, Op.isTransform op = true) :
+    (Spec.run roi ops).roi = roi := by
+  have : ∀ (ops : List Op) (st : SpecState), (∀ op ∈ ops, Op.isTransform op = true) →
+      (ops.foldl Spec.step st).roi = st.roi := by
+    intro ops
+    induction ops with
+    | nil => intro st _; rfl
+    | cons op rest ih =>
+      intro st h
+      rw [List.foldl_cons, ih _ (fun o ho => h o (List.mem_cons_of_mem _ ho))]
+      have h1 := h op List.mem_cons_self
+      cases op <;> simp only [Op.isTransform, Bool.false_eq_true] at h1 <;> simp only [Spec.step]
+      · split <;> rfl
+      · split <;> rfl
+  exact this ops (Spec.init roi) h
+
+/-- After the last redefinition `define new` the specification's base region is the newly defined
+region (with the angle the class documents) and only the motions applied since count. -/
+theorem run_define_last (roi : Roi) (pre post : List Op) (new : Roi)
+    (h : ∀ op ∈ post, Op.isTransform op = true) :
+    (Spec.run roi (pre ++ .define new :: post)).roi = (Spec.step (Spec.run roi pre) (.define new)).roi := by
+  have : ∀ (ops : List Op) (st : SpecState), (∀ op ∈ ops, Op.isTransform op = true) →
+      (ops.foldl Spec.step st).roi = st.roi := by
+    intro ops
+    induction ops with
+    | nil => intro st _; rfl
+    | cons op rest ih =>
+      intro st h
+      rw [List.foldl_cons, ih _ (fun o ho => h o (List.mem_cons_of_mem _ ho))]
+      have h1 := h op List.mem_cons_self
+      cases op <;> simp only [Op.isTransform, Bool.false_eq_true] at h1 <;> simp only [Spec.step]
+      · split <;> rfl
+      · split <;> rfl
+  simp only [Spec.run, List.foldl_append, List.foldl_cons]
+  exact this post _ h
 
 end GlueVerif.Lemmas.Geometry
